@@ -104,6 +104,9 @@ func (e *EventEmitter) handleSubscriber(ctx context.Context, sub event.Subscript
 	cevent := make(chan Event, 16)
 	condProcess := sync.NewCond(&sync.Mutex{})
 	queue := list.New()
+	// sending is true while the drain goroutine holds an event it has removed from the queue but not
+	// yet delivered; it is protected by condProcess.L
+	sending := false
 	wg := sync.WaitGroup{}
 
 	wg.Add(1)
@@ -127,7 +130,7 @@ func (e *EventEmitter) handleSubscriber(ctx context.Context, sub event.Subscript
 			verifhook.Point("emit.reader", e)
 
 			condProcess.L.Lock()
-			if queue.Len() == 0 {
+			if queue.Len() == 0 && !sending {
 				// try to push event to the queue
 				select {
 				case cevent <- e:
@@ -158,6 +161,7 @@ func (e *EventEmitter) handleSubscriber(ctx context.Context, sub event.Subscript
 			}
 
 			e := queue.Remove(queue.Front())
+			sending = true
 
 			// Unlock cond mutex while sending the event
 			condProcess.L.Unlock()
@@ -170,6 +174,7 @@ func (e *EventEmitter) handleSubscriber(ctx context.Context, sub event.Subscript
 			}
 
 			condProcess.L.Lock()
+			sending = false
 		}
 		condProcess.L.Unlock()
 
